@@ -127,11 +127,15 @@ def minIndent : List Chars → Option Nat
       | none => some (indentOf l)
       | some m => some (min (indentOf l) m)
 
-/-- one continuation line of the dedent loop; `none` = the byte slice panics. -/
-def dedentLine (m : Nat) (l : Chars) : Option Chars :=
-  if isBlank l then some []
-  else if blen l > m then bsliceFrom l m
-  else some (trimStart l)
+/-- one continuation line of the dedent loop: cut at byte `m` when that is inside the line AND a
+    character boundary (`is_char_boundary`), else strip the leading whitespace. -/
+def dedentLine (m : Nat) (l : Chars) : Chars :=
+  if isBlank l then []
+  else if blen l > m then
+    match bsliceFrom l m with
+    | some r => r
+    | none => trimStart l
+  else trimStart l
 
 def mapM? {α β} (f : α → Option β) : List α → Option (List β)
   | [] => some []
@@ -144,18 +148,16 @@ def joinNl : List Chars → Chars
   | [l] => l
   | l :: ls => l ++ '\n' :: joinNl ls
 
-/-- `format_docstring`; `none` = the implementation panics (slice inside a character). -/
-def formatDocstring (s : Chars) : Option Chars :=
+/-- `format_docstring` (total since the repair of E7). -/
+def formatDocstring (s : Chars) : Chars :=
   let ls := linesOf s
   let ls := dropWhileBlank ls
   let ls := (dropWhileBlank ls.reverse).reverse
   match ls with
-  | [] => some []
+  | [] => []
   | first :: rest =>
     let m := (minIndent rest).getD 0
-    match mapM? (dedentLine m) rest with
-    | none => none
-    | some rs => some (joinNl (trim first :: rs))
+    joinNl (trim first :: rest.map (dedentLine m))
 
 /-! ### `find_function_name_position` (byte columns) -/
 
@@ -182,15 +184,14 @@ def findFunctionNamePosition (lines : List Chars) (line : Nat) (fname : Chars) :
 
 /-! ### `parameter_has_annotation` (inlay hints) -/
 
-/-- `none` = panic (`&line_text[end_char..]` off a character boundary). -/
-def parameterHasAnnotation (lines : List Chars) (line : Nat) (endChar : Nat) : Option Bool :=
+/-- `parameter_has_annotation`: `line_text.get(end_char..)` — a column past the line or inside a
+    character yields `false` (total since the repair of E16). -/
+def parameterHasAnnotation (lines : List Chars) (line : Nat) (endChar : Nat) : Bool :=
   match lines[line - 1]? with
-  | none => some false
+  | none => false
   | some lt =>
-    if endChar < blen lt then
-      match bsliceFrom lt endChar with
-      | none => none
-      | some after => some ((trimStart after).head? == some ':')
-    else some false
+    match bsliceFrom lt endChar with
+    | none => false
+    | some after => (trimStart after).head? == some ':' 
 
 end PLS
